@@ -313,6 +313,20 @@ FRun(I) == FRunFrom(I, FInit(I))
 FResult(s) == [vname |-> s.vname, nname |-> s.nname, keys |-> s.keys,
                out |-> IF s.raised THEN "raise" ELSE "ok", mod |-> s.mod]
 
+\* NameFixPass.call(model): the main graph and then every function of the model are top levels of
+\* their own - each is run with fresh counters, scope stacks and seen set, whatever happened in the
+\* tops before it; the pass raises at the first top that raises (later tops untouched) and reports
+\* modified iff some top was modified.  tops = <<I_main, I_f1, ...>>.
+RECURSIVE FModelFrom(_, _, _)
+FModelFrom(tops, k, acc) ==
+  IF k > Len(tops) THEN acc
+  ELSE LET r == FResult(FRun(tops[k]))
+       IN IF r.out = "raise" THEN Append(acc, r)   \* tops k+1.. keep their names
+          ELSE FModelFrom(tops, k + 1, Append(acc, r))
+FModel(tops) == FModelFrom(tops, 1, <<>>)
+FModelModified(tops) == \E k \in DOMAIN FModel(tops) : FModel(tops)[k].mod
+FModelRaises(tops) == \E k \in DOMAIN FModel(tops) : FModel(tops)[k].out = "raise"
+
 \* mechanism invariant of the transcription: the scope stacks mirror the nesting and every value
 \* seen so far in a still-open scope has its current name recorded in the innermost open scope set
 FStackOK(I, s) ==
